@@ -13,7 +13,10 @@ import (
 	"os"
 	"sort"
 	"strings"
+	"sync/atomic"
 	"time"
+
+	"github.com/tikv/client-go/v2/tikvrpc"
 
 	proto "github.com/kubewharf/kubebrain-client/api/v2rpc"
 
@@ -100,6 +103,16 @@ func synthetic(borders [][]byte, rot int, reverse bool) func(start, end []byte) 
 			ps[j] = storage.Partition{Start: pts[i], End: pts[i+1]}
 		}
 		return ps
+	}
+}
+
+// beforeRead, when set, is told which partitioned read is about to start ("" = none): the scan-fault scenario
+// arms one engine fault per read with it
+var beforeRead func(kind string)
+
+func arm(kind string) {
+	if beforeRead != nil {
+		beforeRead(kind)
 	}
 }
 
@@ -198,9 +211,13 @@ func group(n *lib.RSNode, p *partitioner, cur func(start, end []byte) []storage.
 	p.current = nil
 	base, nb := listCoq(n, g.a, g.b, g.rev)
 	p.current = cur
+	arm("list")
 	lst, _ := listCoq(n, g.a, g.b, g.rev)
+	arm("count")
 	cnt := countCoq(n, g.a, g.b)
+	arm("stream")
 	whole, err := streamCoq(n, cd.EncodeObjectKey(g.a, 0), cd.EncodeObjectKey(g.b, 0), g.rev)
+	arm("")
 	if err != nil {
 		return "", err
 	}
@@ -383,6 +400,26 @@ func runStore(w *lib.Writer, args lib.Args, s store, r *lib.Rand, kind string, n
 		return
 	}
 	finish(w, n, p, inner, s, r, kind, ntil, fixed, nil, oc, quick)
+}
+
+// runTiKVOn: the store on an already opened TiKV adapter (real regions, recorded GetPartitions answers)
+func runTiKVOn(w *lib.Writer, inner storage.KvStorage, s store, r *lib.Rand, kind string, oc map[string]int, quick bool) {
+	p := &partitioner{inner: inner}
+	wrap := &lib.Wrap{KvStorage: inner, Partitions: p.fn}
+	n := lib.NewRSNode(wrap, "c13")
+	defer lib.RSRetire()
+	if err := fill(n, &s); err != nil {
+		w.Fail(lib.ImplFailure{CaseID: w.Len(), What: err.Error()})
+		return
+	}
+	real := func(start, end []byte) []storage.Partition {
+		ps, err := inner.GetPartitions(context.Background(), start, end)
+		if err != nil {
+			return nil
+		}
+		return ps
+	}
+	finish(w, n, p, inner, s, r, kind, 1, nil, real, oc, quick)
 }
 
 func runTiKV(w *lib.Writer, args lib.Args, s store, r *lib.Rand, kind string, splitsOf func(dump []lib.KV, cur uint64) [][]byte, quick bool) {
@@ -571,6 +608,74 @@ func main() {
 			runStore(w, args, s, hr, "random/memkv-wrap", ntil, nil, quick)
 		}
 	}
+	// corpus 5: the real TiKV adapter on a mock cluster of 151 regions (seeded change C13-8: GetPartitions pages
+	// ScanRegions by 128): List, Count, streams and advertised partitions over a 200-key store split at 150 keys
+	{
+		var splits [][]byte
+		for j := 1; j <= 150; j++ {
+			k := fmt.Sprintf("/r/k%04d", j*200/151)
+			switch j % 3 {
+			case 0:
+				splits = append(splits, enc(k, 0))
+			case 1:
+				splits = append(splits, enc(k, 1))
+			default:
+				splits = append(splits, enc(k, 1<<40))
+			}
+		}
+		inner, closer, err := lib.NewTiKVSplit(splits...)
+		if err != nil {
+			w.Fail(lib.ImplFailure{CaseID: w.Len(), What: "tikv: " + err.Error()})
+		} else {
+			runTiKVOn(w, inner, store{big: 200}, rnd.Fork(), "corpus/tikv-151-regions", map[string]int{"tikv-splits-150": 1}, quick)
+			closer()
+		}
+	}
+	// corpus 6: a store-side failure of a scan continuation (seeded change C13-7: iter.Next reports a failed fetch as
+	// the end of the partition). Two regions of more than 256 records each; while a partitioned List / Count / stream
+	// runs, the 2nd CmdScan batch of the first region is answered once with an empty response ("body missing"): the
+	// worker must fail and be retried (one back-off second per read), never lose keys silently
+	{
+		split := enc("/r/k0150", 0)
+		lo := enc("/r/k0000", 0)
+		var left int32
+		hooked, err := lib.NewTiKVHooked(split)
+		if err != nil {
+			w.Fail(lib.ImplFailure{CaseID: w.Len(), What: "tikv: " + err.Error()})
+		} else {
+			faults := 0
+			inner, err := hooked.Open(1, func(ctx context.Context, addr string, req *tikvrpc.Request, next func() (*tikvrpc.Response, error)) (*tikvrpc.Response, error) {
+				if req.Type == tikvrpc.CmdScan {
+					sr := req.Scan()
+					if !sr.Reverse && bytes.Compare(sr.StartKey, lo) > 0 && bytes.Compare(sr.StartKey, split) < 0 && atomic.AddInt32(&left, -1) >= 0 {
+						faults++
+						return &tikvrpc.Response{}, nil
+					}
+				}
+				return next()
+			}, nil)
+			if err != nil {
+				w.Fail(lib.ImplFailure{CaseID: w.Len(), What: "tikv: " + err.Error()})
+			} else {
+				beforeRead = func(kind string) {
+					if kind == "" {
+						atomic.StoreInt32(&left, 0)
+					} else {
+						atomic.StoreInt32(&left, 1)
+					}
+				}
+				oc := map[string]int{}
+				runTiKVOn(w, inner, store{big: 300}, rnd.Fork(), "corpus/tikv-scan-fault", oc, quick)
+				beforeRead = nil
+				w.Stats.Outcomes["scan-continuation-faults-injected"] += faults
+				if faults == 0 {
+					w.Fail(lib.ImplFailure{CaseID: w.Len() - 1, What: "scan-fault scenario: no continuation scan was intercepted (scenario degenerate)"})
+				}
+			}
+			hooked.Close()
+		}
+	}
+
 	// corpus 4 (last, so that it sits in the small tail shard): engines that cut the interval into MANY pieces — 65, 127,
 	// 130 and 191 partitions of a 200-key store (seeded change C13-6: a cap on the number of workers that drops the
 	// tail when the count is not a multiple of the group size); borders on index records, just behind them and
